@@ -13,6 +13,7 @@ import (
 	"os"
 	"path/filepath"
 	"runtime"
+	"runtime/pprof"
 	"sort"
 	"strings"
 	"sync"
@@ -135,6 +136,8 @@ type Result struct {
 	WallS      float64                `json:"wall_s"`
 	NTKeys     map[string][]uint64    `json:"nt_keys,omitempty"`
 	ntKeys     map[string]map[uint64]struct{}
+	ntN        map[string]int64
+	NTByIndex  map[string]int64 `json:"nt_by_index,omitempty"`
 }
 
 // W is a worker handle (one per goroutine) used by Space.Run.
@@ -149,6 +152,9 @@ type W struct {
 	cur     int64
 	curCase json.RawMessage
 	sigN    map[string]int
+	ntN     int64
+	// Local is per-worker scratch storage for the check (caches).
+	Local map[string]any
 }
 
 func (w *W) Ctx() *Ctx { return w.c }
@@ -182,6 +188,10 @@ func (w *W) Nontrivial(key string) {
 	h.Write([]byte(key))
 	w.nt[h.Sum64()] = struct{}{}
 }
+
+// NontrivialByIndex counts a non-trivial case of a space whose cases are
+// pairwise distinct by construction (one per index), without hashing it.
+func (w *W) NontrivialByIndex() { w.ntN++ }
 
 // Sample keeps up to 3 written-out cases per class.
 func (w *W) Sample(class string, v any) {
@@ -234,7 +244,7 @@ func newStats() *SpaceStats {
 func (c *Ctx) NewW(space string) *W {
 	c.mu.Lock()
 	defer c.mu.Unlock()
-	w := &W{c: c, slot: len(c.workers), space: space, st: newStats(), nt: map[uint64]struct{}{}, samples: map[string]int{}}
+	w := &W{c: c, slot: len(c.workers), space: space, st: newStats(), nt: map[uint64]struct{}{}, samples: map[string]int{}, Local: map[string]any{}}
 	c.workers = append(c.workers, w)
 	return w
 }
@@ -286,7 +296,8 @@ func (c *Ctx) merge(w *W) {
 	for k := range w.nt {
 		c.res.ntKeys[w.space][k] = struct{}{}
 	}
-	st.Nontrivial = int64(len(c.res.ntKeys[w.space]))
+	c.res.ntN[w.space] += w.ntN
+	st.Nontrivial = int64(len(c.res.ntKeys[w.space])) + c.res.ntN[w.space]
 	if len(c.res.Violations) < 2000 {
 		c.res.Violations = append(c.res.Violations, w.viol...)
 	}
@@ -434,7 +445,7 @@ func Catch(f func()) (r any, stack string) {
 // RunChild executes the check inside a child process and writes its result.
 func RunChild(chk *Check, tier string, seed int64, shard, shards int, outPath, markPath string, skip []string, budget time.Duration) {
 	c := &Ctx{Check: chk, Tier: tier, Seed: seed, Shard: shard, Shards: shards, Start: time.Now(), Budget: budget}
-	c.res = &Result{Property: chk.ID, Shard: shard, Spaces: map[string]*SpaceStats{}, ntKeys: map[string]map[uint64]struct{}{}}
+	c.res = &Result{Property: chk.ID, Shard: shard, Spaces: map[string]*SpaceStats{}, ntKeys: map[string]map[uint64]struct{}{}, ntN: map[string]int64{}}
 	if markPath != "" {
 		c.marker = openMarker(markPath, true)
 	}
@@ -447,6 +458,11 @@ func RunChild(chk *Check, tier string, seed int64, shard, shards int, outPath, m
 	if chk.SingleThread {
 		runtime.GOMAXPROCS(1)
 	}
+	if pf := os.Getenv("VERIF_CPUPROFILE"); pf != "" && shard == 0 {
+		f, _ := os.Create(pf)
+		pprof.StartCPUProfile(f)
+		defer pprof.StopCPUProfile()
+	}
 	for _, sp := range chk.Spaces(c) {
 		if sp.RunAll != nil {
 			sp.RunAll(c)
@@ -455,6 +471,7 @@ func RunChild(chk *Check, tier string, seed int64, shard, shards int, outPath, m
 		}
 	}
 	c.res.Capped = c.capped.Load()
+	c.res.NTByIndex = c.res.ntN
 	if shards > 1 {
 		c.res.NTKeys = map[string][]uint64{}
 		for name, m := range c.res.ntKeys {
@@ -477,7 +494,7 @@ func (c *Ctx) Skipped(key string) bool { return c.skip != nil && c.skip[key] }
 // ReplayOne re-executes one recorded case and returns the violations seen.
 func ReplayOne(chk *Check, tier string, v *Violation) []Violation {
 	c := &Ctx{Check: chk, Tier: tier, Shards: 1, Start: time.Now()}
-	c.res = &Result{Property: chk.ID, Spaces: map[string]*SpaceStats{}, ntKeys: map[string]map[uint64]struct{}{}}
+	c.res = &Result{Property: chk.ID, Spaces: map[string]*SpaceStats{}, ntKeys: map[string]map[uint64]struct{}{}, ntN: map[string]int64{}}
 	if chk.SingleThread {
 		runtime.GOMAXPROCS(1)
 	}
